@@ -77,10 +77,10 @@ func TestVerif_C17_e2e(t *testing.T) {
 		clientCT, reqCT := "", ""
 		switch r.Intn(6) {
 		case 0:
-			clientCT = verifh.Pick(r, []string{"application/json", "text/xml", "text/plain", "application/soap+xml"})
+			clientCT = verifh.Pick(r, []string{"application/json", "text/xml", "text/plain", "application/soap+xml", "application/vnd.api+json; charset=utf-8", "Text/XML"})
 			c.SetCommonContentType(clientCT)
 		case 1:
-			reqCT = verifh.Pick(r, []string{"application/json", "application/xml", "text/plain"})
+			reqCT = verifh.Pick(r, []string{"application/json", "application/xml", "text/plain", "application/XML", "application/atom+xml; charset=utf-8"})
 			req.SetContentType(reqCT)
 		}
 		exoticField := "" // "" | "ctl" | "empty": a multipart field name outside the plain class
@@ -439,7 +439,11 @@ func TestVerif_C17_e2e(t *testing.T) {
 			if effCT == "" {
 				effCT = clientCT
 			}
-			marshalFails := marshalSet && !forbid && ((strings.Contains(effCT, "xml") && xerr != nil) || (!strings.Contains(effCT, "xml") && jerr != nil))
+			isXML := strings.Contains(strings.ToLower(effCT), "xml")
+			if marshalSet && !forbid && c17XMLOnlyByCase(reqCT, clientCT) {
+				class = "c17-xml-type-case"
+			}
+			marshalFails := marshalSet && !forbid && ((isXML && xerr != nil) || (!isXML && jerr != nil))
 			if marshalFails {
 				// the marshaller refuses the value: the call must fail and nothing may be sent
 				impl, ok = "err", err != nil && len(seen) == 0
@@ -462,7 +466,7 @@ func TestVerif_C17_e2e(t *testing.T) {
 				case forbid:
 					s.Count("forbidden-" + method)
 					ok = len(got.Body) == 0 && got.CL <= 0 && len(got.TE) == 0 && got.Method == method
-				case marshalSet && strings.Contains(eff, "xml"):
+				case marshalSet && strings.Contains(strings.ToLower(eff), "xml"):
 					s.Count("marshal-xml")
 					ok = xerr == nil && bytes.Equal(got.Body, xs) && gct == eff
 					if d, isDoc := marshalVal.(*c17Doc); ok && isDoc {
